@@ -55,6 +55,11 @@ partial def loop (h : IO.FS.Stream) (s : St) : IO Unit := do
       let st := if s.mode == "legacy" then (roStrict g.bases n c).map (fun _ => legacyRo g.bases n c) else roStrict g.bases n c
       IO.println s!"sro {shw sro} | iro {shw (sro.filter s.isI)} | imp {shw (sortN sro)} | ro {shw r.mro} | strict {match st with | some l => shw l | none => "ERR"} | cons {isConsistent g.bases n c}"
       loop h s
+    | ["qs", x] =>          -- the cached order only (no from-scratch ro.ro: its memo is keyed by equality, G-keys)
+      let g := view s
+      let sro := g.sro x.toNat!
+      IO.println s!"sro {shw sro} | iro {shw (sro.filter s.isI)} | imp {shw (sortN sro)}"
+      loop h s
     | ["fresh"] => IO.println s!"{freshHolds s.g}"; loop h s
     | _ => IO.println "bad"; loop h s
   | _ => IO.println "bad"; loop h s
